@@ -10,6 +10,7 @@ from sim.simlib import Sim, pdu
 
 ID = 'C05'
 TARGETS = ['SmppVerif.Props.C05']
+THOROUGH_ROUNDS = 10
 RULE = ('PDUs fed to a bound session, one at a time, framing consistent (command_length = octets fed): every command id of the '
         'enum, supported and not, as request and response; library-built deliver_sm / submit_sm_resp / enquire_link / unbind / '
         'generic_nack with every corruption of the C03 stream (octet flips, inserted and deleted octets, sm_length and TLV length '
